@@ -162,13 +162,23 @@ impl SemanticState {
 
         for definition in &module.definitions {
             let new_path = path.join(definition.name.as_str().into());
-            // A type with a vftable block will have a vftable type generated next to it
+            // A type with a vftable block will have a vftable type generated next to it.
+            // Nothing else can be declared under that name, whichever comes first and
+            // whatever it looks like once resolved.
             if let grammar::ItemDefinitionInner::Type(ty) = &definition.inner {
                 if ty.statements.iter().any(|s| s.field.is_vftable()) {
-                    self.type_registry
-                        .reserve(path.join(format!("{}Vftable", definition.name).into()));
+                    let vftable_path = path.join(format!("{}Vftable", definition.name).into());
+                    anyhow::ensure!(
+                        self.type_registry.get(&vftable_path).is_none(),
+                        "the item `{vftable_path}` is defined more than once (it is also the vftable type of `{new_path}`)"
+                    );
+                    self.type_registry.reserve(vftable_path);
                 }
             }
+            anyhow::ensure!(
+                !self.type_registry.is_reserved(&new_path),
+                "the item `{new_path}` is defined more than once (it is also a generated vftable type)"
+            );
             self.add_item(ItemDefinition {
                 visibility: definition.visibility.into(),
                 path: new_path,
@@ -214,6 +224,10 @@ impl SemanticState {
             );
 
             let extern_path = path.join(extern_path.as_str().into());
+            anyhow::ensure!(
+                !self.type_registry.is_reserved(&extern_path),
+                "the item `{extern_path}` is defined more than once (it is also a generated vftable type)"
+            );
 
             self.add_item(ItemDefinition {
                 visibility: Visibility::Public,
